@@ -15,6 +15,7 @@ import (
 	"strconv"
 	"strings"
 	"sync"
+	"syscall"
 	"time"
 
 	klogv1 "k8s.io/klog"
@@ -40,6 +41,8 @@ func initKlog() {
 func main() {
 	initKlog()
 	only := flag.String("only", "", "run a single population: <mode>:<idx>")
+	flag.BoolVar(&portDirGC, "portdir-gc", os.Getenv("GCSIM_PORTDIR_GC") == "1", "opt-in: real-wiring populations put the port "+
+		"state dir /var/lib/cni/galaxy/port (private bind mount) into gc_dirs as the daemon's default flags do")
 	fl := evid.ParseFlags()
 	if fl.Child != "" {
 		os.Exit(childMain(fl))
@@ -80,7 +83,8 @@ func parentMain(fl *evid.Flags, only string) int {
 		"IP dir (content variants id / id\\neth0 / id\\r\\neth0 / padded) and a state file per gc dir with p=0.6, plus " +
 		"non-container files (IP-named sub-directories, non-IP names, empty files, empty first line, symlinks with outside " +
 		"targets); about a third of the dead containers with a state file have a failing port cleanup (recording callback " +
-		"returning an error always or the first 1-4 calls; real wiring: truncated/garbage/empty port file or failing iptables); " +
+		"returning an error always or the first 1-4 calls; real wiring: truncated/garbage/empty port file, or iptables operations failing during the " +
+		"container's clean-up: permanently, the first 1-3 operations, or exactly the n-th once); " +
 		"2 of 3 populations (3 of 4 thorough) add a runtime outage (socket down, or every request dropped) starting at " +
 		"a chosen position of the inspect sequence; 1 of 3 wire the real Galaxy.cleanIPtables over the strict iptables fake. " +
 		"Non-trivial = at least one container answered dead whose files were seen removed AND at least one never-dead container " +
@@ -93,6 +97,10 @@ func parentMain(fl *evid.Flags, only string) int {
 	run.Assume("cleanupVeth runs and is not monitored (links cannot be faked without a hook, the property text does not mention " +
 		"them); when other processes leave v-h* veth links on the host it inspects ids that belong to no population: those are " +
 		"answered with an error (link kept), counted as inspects_*_unscripted, never held and never used to count passes")
+	run.Assume("real clean-port wiring: the port state dir /var/lib/cni/galaxy/port is a private bind mount per child process; by " +
+		"default it is NOT one of the collector's gc_dirs (the daemon's default flags do list it; -portdir-gc / " +
+		"GCSIM_PORTDIR_GC=1 wires it in). Without it a container's port state is retried only once per remaining state file, so " +
+		"port state left WITH its port file after transient faults is counted, not judged; rules left WITHOUT a port file are a violation")
 	run.Assume("round counting relies on ioutil.ReadDir returning names sorted, so that the sentinel file of a loop is the last " +
 		"inspect of a pass; a loop blocked in its sentinel inspect cannot change its directories")
 	run.Assume("runtime 'down' outages last a wall-clock window of 70-130 ms (>= 3 GC periods of 20 ms); the number of collector " +
@@ -159,20 +167,36 @@ func parentMain(fl *evid.Flags, only string) int {
 		wg.Add(1)
 		go func(sp *childSpec, specFile string) {
 			defer wg.Done()
-			cmd := exec.Command(exe, "-prop", fl.Prop, "-tier", fl.Tier, "-seed", strconv.FormatInt(fl.Seed, 10), "-child", specFile)
-			cmd.Stderr = os.Stderr
-			cmd.Stdout = os.Stderr
 			var env []string
 			for _, e := range os.Environ() {
-				if strings.HasPrefix(e, "DOCKER_") || strings.HasPrefix(e, "CONTAINERD_HOST=") {
+				if strings.HasPrefix(e, "DOCKER_") || strings.HasPrefix(e, "CONTAINERD_HOST=") || strings.HasPrefix(e, "GCSIM_NS=") {
 					continue
 				}
 				env = append(env, e)
 			}
-			cmd.Env = env
+			mk := func(ns bool) *exec.Cmd {
+				args := []string{"-prop", fl.Prop, "-tier", fl.Tier, "-seed", strconv.FormatInt(fl.Seed, 10), "-child", specFile}
+				if portDirGC {
+					args = append(args, "-portdir-gc")
+				}
+				cmd := exec.Command(exe, args...)
+				cmd.Stderr = os.Stderr
+				cmd.Stdout = os.Stderr
+				cmd.Env = env
+				if ns {
+					// own mount namespace: the child bind-mounts a private directory over the constant port state dir
+					cmd.SysProcAttr = &syscall.SysProcAttr{Unshareflags: syscall.CLONE_NEWNS}
+					cmd.Env = append(append([]string{}, env...), "GCSIM_NS=1")
+				}
+				return cmd
+			}
+			cmd := mk(true)
 			if err := cmd.Start(); err != nil {
-				run.Inconclusive("cannot start child: " + err.Error())
-				return
+				cmd = mk(false)
+				if err := cmd.Start(); err != nil {
+					run.Inconclusive("cannot start child: " + err.Error())
+					return
+				}
 			}
 			done := make(chan error, 1)
 			go func() { done <- cmd.Wait() }()
@@ -253,6 +277,12 @@ func parentMain(fl *evid.Flags, only string) int {
 		if run.Counter("files_of_never-dead_containers_still_present_at_end") == 0 {
 			run.Inconclusive("no file of a never-dead container observed")
 		}
+		if run.Counter("containers_with_transient_iptables_faults") == 0 {
+			run.Inconclusive("no dead container with ports and transient iptables faults during its clean-up was exercised")
+		}
+		if run.Counter("orphan_checks_performed") == 0 {
+			run.Inconclusive("no port-mapping orphan check performed")
+		}
 		if run.Counter("dead_containers_with_failing_portclean") == 0 {
 			run.Inconclusive("no dead container whose port cleanup failed was observed")
 		}
@@ -265,9 +295,11 @@ func parentMain(fl *evid.Flags, only string) int {
 }
 
 var (
-	posMu        sync.Mutex
-	positions    = map[string]map[int]bool{}
-	counterNames = map[string]bool{}
+	portDirGC      bool // -portdir-gc
+	privatePortDir bool // child: /var/lib/cni/galaxy/port is a private bind mount of this process
+	posMu          sync.Mutex
+	positions      = map[string]map[int]bool{}
+	counterNames   = map[string]bool{}
 )
 
 func missing(sorted []int) []int {
@@ -323,9 +355,32 @@ func childMain(fl *evid.Flags) int {
 		return evid.ExitBroken
 	}
 	defer j.Close()
+	if os.Getenv("GCSIM_NS") == "1" {
+		priv := filepath.Join(sp.Base, "portstate")
+		err := syscall.Mount("", "/", "", syscall.MS_REC|syscall.MS_PRIVATE, "")
+		if err == nil {
+			err = os.MkdirAll(priv, 0700)
+		}
+		if err == nil {
+			err = os.MkdirAll(portStateDir, 0700)
+		}
+		if err == nil {
+			err = syscall.Mount(priv, portStateDir, "", syscall.MS_BIND, "")
+		}
+		privatePortDir = err == nil
+		if err != nil {
+			fmt.Fprintln(os.Stderr, "child: no private port state dir:", err)
+		}
+	}
+	if privatePortDir {
+		run.Count("children_with_private_port_state_dir", 1)
+	} else if portDirGC {
+		run.Inconclusive("-portdir-gc needs a private mount of " + portStateDir + ", which is not available")
+	}
 	pid := os.Getpid()
 	for _, idx := range sp.Indices {
 		p := genPop(fl.Seed, sp.Mode, idx, fl.Tier, pid)
+		p.PortDirGC = portDirGC && privatePortDir && p.RealCallback
 		spec, _ := json.Marshal(map[string]interface{}{"mode": sp.Mode, "idx": idx, "seed": fl.Seed, "containers": len(p.Ctrs),
 			"outage": p.Outage, "real_callback": p.RealCallback})
 		fmt.Fprintf(j, "start %s\n", spec)
